@@ -71,7 +71,14 @@ func Project(doc, projection bsonkit.Doc) (bsonkit.Doc, error) {
 		res = &bson.D{}
 
 		// copy id
-		_, err := bsonkit.Put(res, "_id", bsonkit.Get(doc, "_id"), false)
+		id := bsonkit.Get(doc, "_id")
+		if id != bsonkit.Missing {
+			id, err = bsonkit.ConvertValue(id)
+			if err != nil {
+				return nil, err
+			}
+		}
+		_, err = bsonkit.Put(res, "_id", id, false)
 		if err != nil {
 			return nil, err
 		}
@@ -86,6 +93,12 @@ func Project(doc, projection bsonkit.Doc) (bsonkit.Doc, error) {
 			}
 			value := bsonkit.Get(doc, path)
 			if value != bsonkit.Missing {
+				// copy the value as overlapping paths and merged fields
+				// would otherwise be written into the original document
+				value, err = bsonkit.ConvertValue(value)
+				if err != nil {
+					return nil, err
+				}
 				_, err = bsonkit.Put(res, path, value, false)
 				if err != nil {
 					return nil, err
